@@ -29,7 +29,8 @@ type fsNode struct {
 }
 
 var fsNamePool = []string{"a", "b", "c d", "é", "00", "A1x", ".hidden", "x.txt", "漢字", "-", "%41", "\xff\xfe", "a\nb", " ", "0A", "FF", "~", "..."}
-var fsTargets = []string{"a", "../x", "/abs/olute", "dangling target", "ünï", ".", "..", "a/b/c", "\xff"}
+var fsTargets = []string{"a", "../x", "/abs/olute", "dangling target", "ünï", ".", "..", "a/b/c", "\xff",
+	"./x", "x/", "a//b", "a/./b", "a/../b", "./", "../", "//abs", "a/b/", " lead", "trail ", "a\\b", "%2e%2e"}
 
 func genFSNames(t *rapid.T, max int) []string {
 	set := map[string]bool{}
@@ -62,6 +63,10 @@ func genFS(t *rapid.T, depth int, allowFifo bool) *fsNode {
 		n := rapid.SampledFrom([]int{0, 1, 2, 64, 700, 2048}).Draw(t, "flen")
 		return &fsNode{Kind: fsFile, Data: lcgBytes(n, rapid.Byte().Draw(t, "tag"), 0)}
 	case k == 3:
+		if rapid.IntRange(0, 3).Draw(t, "rndtarget") == 0 {
+			b := rapid.SliceOfN(rapid.SampledFrom([]byte("ab./ \xc3\xa9\xff-~")), 1, 24).Draw(t, "targetbytes")
+			return &fsNode{Kind: fsSymlink, Target: string(b)}
+		}
 		return &fsNode{Kind: fsSymlink, Target: rapid.SampledFrom(fsTargets).Draw(t, "target")}
 	case k == 4:
 		if allowFifo {
